@@ -27,3 +27,14 @@ claim("C20",
       "Tie to the code: correspondence of cell_to_parent / cell_to_children / is_first_child / get_stride on pairs straddling parent boundaries at every level; integer-comparison oracle on the implementation's output.",
       "Lean 4 proof (omega/grind over closed forms of the id layout; induction over digit lists) + differential model/impl correspondence",
       "DESIGN.md section 6 C20")
+claim("C13",
+      "[full, for the model] The projection cache is modelled as an explicit state machine (A5.Memo: 30 + 240 slots, slot functions built from the constants regenerated from dodecahedron.rs, "
+      "nested squashed-triangle fetch, CRS counter), generic in the value functions. Theorems for ALL histories and ALL interleavings: slot_sound (equal slot => equal value; all slots in range; every slot reachable), "
+      "memo_refines_pure (invariant 'every filled slot holds the pure value of its keys' holds initially and is preserved; every call returns the stateless result after any history, in any fill order), "
+      "threads_independent (any interleaving of per-thread call sequences: each step returns the pure result and touches only its own component), crs_quiet (<= 720 < 10000 CRS lookups, so the stderr warning is unreachable; "
+      "its hypothesis that all 240 triangles compute is checked by evaluation on every run), ok_stays_ok/err_stays_err. The release's history-dependent inverse(origin 12..23) is kept as a kernel-checked counterexample against the frozen v0.6.2 model (repaired by fix d95ab4f). "
+      "[runtime, partial] Tie to the code = this check: thread histories executed in fresh threads of the real library (random and fill-all-270-slots orders, warm replays) must give the model's results bit-for-bit AND the slot-fill bitmap the state machine predicts (hook verif_memo_fill); "
+      "public API calls fresh vs after prefixes vs under 8-16 concurrent threads must be bit-identical. Data-race freedom of the Rust runtime primitives is assumed, not proved.",
+      "Lean 4 proof (invariant by induction over histories and interleavings of a memo state machine) + bitmap/bit-exact differential runs against the real library in fresh and concurrent threads",
+      "DESIGN.md section 6 C13",
+      "Lean cannot observe Rust's memory model: thread_local!/OnceLock/LazyLock/lazy_static and the &'static mut from get_thread_local are trusted; the concurrent runs exercise them.")
